@@ -85,6 +85,10 @@ def body(run: Run, replay):
                 Pg = np.eye(ns) - np.ones((ns, ns)) / ns
                 Bs = Bs + 2.0 * Pg @ (Sg - Sg.T) @ Pg
             Ml, Bl, Kl = network(np, rng, nl, {"prop": "prop", "full": "full", "noload": "none", "gyro": "full"}[cfg["damp"]])
+            if cfg["damp"] == "gyro":
+                Sl = rng.standard_normal((nl, nl))
+                Pl = np.eye(nl) - np.ones((nl, nl)) / nl
+                Bl = Bl + 2.0 * Pl @ (Sl - Sl.T) @ Pl          # the Load's apparent mass is non-symmetric as well
             Rgen = rng.standard_normal((nb, nb)) + 2 * np.eye(nb)
             tags = {"nb": nb, "sform": cfg["sform"], "lform": cfg["lform"], "damp": cfg["damp"], "fpos": cfg["fpos"]}
             run.case(("cfg", json.dumps(cfg, sort_keys=True), rep), part="NT coupling vs direct coupled solution")
@@ -93,6 +97,8 @@ def body(run: Run, replay):
             # frequencies: relative to the first flexible mode of the coupled-ish system
             w1 = np.sqrt(np.sort(la.eigh(Ks, Ms, eigvals_only=True))[1])
             freq = np.array([0.0002 if nb == 1 else 0.05, 0.3, 0.8, 1.7, 3.1, 6.0]) * w1 / 2 / np.pi   # vanishing frequency only for a determinate interface
+            if rigid_law:
+                freq = np.r_[freq, 0.0]              # and exactly 0 Hz, last in the vector
             lf = len(freq)
             Fs = np.zeros((ns, lf), complex)
             rows = range(nb, ns) if cfg["fpos"] == "interior" else range(0, nb)
@@ -113,6 +119,8 @@ def body(run: Run, replay):
             bad = None
             for j, f in enumerate(freq):
                 W = 2 * np.pi * f
+                if f == 0:
+                    continue                         # the free-free dynamic stiffness is singular at 0 Hz: only the rigid-mass law applies there
                 for nm, AMc, (M_, B_, K_, T_) in (("Source", SAM, (Ms, Bs, Ks, Ts)), ("Load", LAM, (Ml, Bl, Kl, Tl))):
                     want = terms.ev(T["am"], {"M": M_, "B": B_, "K": K_, "T": T_, "W": W})
                     sc = np.abs(want).max()
@@ -156,10 +164,13 @@ def body(run: Run, replay):
                     mr = float(np.ravel(terms.ev(T["rigid"], {"M": M_, "Phi": phi}))[0])
                     if abs(AMc[0, 0, 0] - mr) > 2e-3 * abs(mr):
                         run.violation("calcAM (%s): apparent mass at vanishing frequency is %s, physical rigid-body mass %.6g" % (nm, AMc[0, 0, 0], mr), {"cfg": cfg}, dict(tags, fn="calcAM", clause="rigid"))
+                    if abs(AMc[0, -1, 0] - mr) > 1e-8 * abs(mr):
+                        run.violation("calcAM (%s): apparent mass at exactly 0 Hz is %s, physical rigid-body mass %.6g" % (nm, AMc[0, -1, 0], mr), {"cfg": cfg}, dict(tags, fn="calcAM", clause="rigid0"))
             # explicit solver objects: same apparent mass
             if cfg["sform"] != "cb" and rep == 0:
-                alt = frclim.calcAM(S_in, freq, fs=ode.FreqDirect(Ms, Bs, Ks))
-                if not np.allclose(alt, SAM, rtol=1e-7, atol=1e-9 * np.abs(SAM).max()):
+                nzf = freq != 0                 # 0 Hz with rigid-body modes is outside FreqDirect's documented domain
+                alt = frclim.calcAM(S_in, freq[nzf], fs=ode.FreqDirect(Ms, Bs, Ks))
+                if not np.allclose(alt, SAM[:, nzf, :], rtol=1e-7, atol=1e-9 * np.abs(SAM[:, nzf, :]).max()):
                     run.violation("calcAM: FreqDirect route differs from the default route", {"cfg": cfg}, dict(tags, fn="calcAM"))
             run.trace_validated()
 
